@@ -343,6 +343,11 @@ def run(ctx):
         if table != want:
             ctx.violation(RL, k + "|lazy-flag", "the laziness flag of back buffers is %s (expected true exactly for TickLazy and LoopLazy)" % table, c.bodies[cd].loc())
 
+    if ctx.tier == "thorough":
+        # translation validation on a corpus of dfir_syntax! programs compiled with this tree's dfir_lang (never run)
+        import corpus
+        corpus.rules_c24(ctx)
+
 
 def _from_param_field(b, place, param, field, depth=0):
     if not isinstance(place, int):
